@@ -109,7 +109,8 @@ Ltac ceq :=
   end.
 Ltac segs :=
   repeat first
-    [ rewrite vm_get_app | rewrite vm_get_opt | rewrite vm_get_cons | rewrite vm_get_nil
-    | rewrite map_remove_app | rewrite map_remove_opt | rewrite map_remove_cons | rewrite map_remove_nil
-    | ceq | progress cbv beta iota | progress cbn [app option_map] ].
-
+    [ ceq | progress cbv beta iota
+    | rewrite vm_get_cons | rewrite map_remove_cons
+    | rewrite vm_get_app | rewrite vm_get_opt | rewrite vm_get_nil
+    | rewrite map_remove_app | rewrite map_remove_opt | rewrite map_remove_nil
+    | progress cbn [app option_map] ].
